@@ -315,6 +315,16 @@ pub fn execute(s: &ForScn, ctx: &mut Ctx) {
                 }
                 Err(p) => ctx.fail("C14", "panic", p.site(), format!("indexed iter_shapes: {}", p.text())),
             }
+            // a random access that fails (wrong type requested) must not disturb what the index says:
+            // a following iteration still yields one shape per entry, in index order
+            if n > 0 && s.ty != 0 {
+                let other = if s.ty == 31 { 1 } else { 31 };
+                let _ = nth_typed(&mut r, other, 0);
+                match iter_generic(&mut r, cap) {
+                    Ok((items, capped)) => check_items(ctx, "C14", "iter_shapes-after-failed-typed-access", &items, capped, s, lsite),
+                    Err(p) => ctx.fail("C14", "panic", p.site(), format!("iteration after a failed typed access: {}", p.text())),
+                }
+            }
         }
         Open::Err(e) => ctx.fail("C14", "open", lsite, format!("with_shx failed: {:?}", e)),
         Open::Panic(p) => ctx.fail("C14", "panic", p.site(), format!("with_shx: {}", p.text())),
